@@ -202,15 +202,26 @@ pub struct Src<T> {
     pub items: Vec<Option<T>>,
     pub pos: usize,
     pub calls: std::rc::Rc<std::cell::Cell<(u32, bool)>>,
+    /// which (honest) `size_hint` the source reports - an environment answer, see `HINTS`
+    pub hint: u8,
 }
+/// Number of size_hint behaviours of `Src`. All are honest (lower <= remaining <= upper):
+/// 0 `(0, None)`, 1 exact, 2 `(remaining, None)`, 3 `(0, Some(remaining))`,
+/// 4.. `(0, Some(usize::MAX - j))` for j = 0, 1, 2, 3 (huge but true upper bounds, as adaptors such
+/// as `take_while` over an unbounded range report them).
+pub const HINTS: u8 = 8;
 impl<T> Src<T> {
     pub fn new(items: Vec<T>) -> (Self, std::rc::Rc<std::cell::Cell<(u32, bool)>>) {
+        Self::with_hint(items, 0)
+    }
+    pub fn with_hint(items: Vec<T>, hint: u8) -> (Self, std::rc::Rc<std::cell::Cell<(u32, bool)>>) {
         let calls = std::rc::Rc::new(std::cell::Cell::new((0, false)));
         (
             Src {
                 items: items.into_iter().map(Some).collect(),
                 pos: 0,
                 calls: calls.clone(),
+                hint,
             },
             calls,
         )
@@ -218,6 +229,16 @@ impl<T> Src<T> {
 }
 impl<T> Iterator for Src<T> {
     type Item = T;
+    fn size_hint(&self) -> (usize, Option<usize>) {
+        let rem = self.items.len().saturating_sub(self.pos);
+        match self.hint {
+            0 => (0, None),
+            1 => (rem, Some(rem)),
+            2 => (rem, None),
+            3 => (0, Some(rem)),
+            j => (0, Some(usize::MAX - (j as usize - 4))),
+        }
+    }
     fn next(&mut self) -> Option<T> {
         pl::tick(pl::Cb::SrcNext);
         let (n, after_none) = self.calls.get();
